@@ -95,6 +95,12 @@ def isTopKB (o : Ops Float32) (k : Int) (ts out : List (Tok Float32)) : Bool :=
      | none => rest.isEmpty
      | some m => rest.all (fun x => !o.lt m.val x.val))
 
+/-- FNV-1a style digest of a list of floats (bit patterns; NaN canonical): the `sample` op reports it
+    for the probabilities after softmax, so that L1 covers their bit patterns also when the stage
+    ops are not emitted (large vocabularies) -/
+def hashVals (vs : List Float32) : Nat :=
+  (vs.foldl (fun (h : UInt32) v => (h ^^^ key v) * 16777619) 2166136261).toNat
+
 def pTokList : TP (List (Tok Float32)) := do
   let n ← nat
   rep n (do let id ← nat; let v ← pF; pure (⟨id, v⟩ : Tok Float32))
@@ -138,7 +144,7 @@ def sampleSummary (o : Ops Float32) (fix pre : Bool) (P : Params Float32) (r : F
     let head := match res with
       | .ok t => s!"ok {t.id}"
       | .error e => showErr e
-    s!"{head} kt={L.length} kp={fp.length} km={km} c={c}"
+    s!"{head} kt={L.length} kp={fp.length} km={km} c={c} h={hashVals pv}"
 
 def handle (toks' : List String) : Option String :=
   match toks' with
